@@ -9,6 +9,8 @@ package eventrecorder
 // The event loop caches a snapshot of the history in lastEvents. Ghost flag: the in-memory history has changed
 // since the snapshot the cache may hold was taken.
 //@ ghost var ghostHistoryDirty bool
+//@ ghost var ghostUnsaved bool
+//@ ghost var ghostSaveArmed bool
 //@ func (*EventRecorder).eventLoop
 //@   atcall (*EventRecorder).recordAuthEvent sets ghostHistoryDirty bool (sr2 *EventRecorder, username2 string, authType2 uint, vipAuthType2 uint8) :: true
 //@   atcall (*EventRecorder).recordSPLoginEvent sets ghostHistoryDirty bool (sr2 *EventRecorder, username2 string, url2 string) :: true
@@ -18,3 +20,16 @@ package eventrecorder
 //@   atcall (*EventRecorder).getEventsList sets ghostHistoryDirty bool (sr2 *EventRecorder, cache2 **Events, snapshot2 *Events) :: false if old(*cache2) == nil
 //@   atcall saveEvents requires (filename2 string, eventsMap2 EventsMap) :: !ghostHistoryDirty          #C20.saves-current-history @C20
 //@   loop 1 (lastEvents *Events) invariant lastEvents != nil ==> !ghostHistoryDirty                      #C20.snapshot-is-current @C20
+// every change of the history is followed by a save: whenever the loop waits with unsaved changes, the save timer
+// was (re)armed since the last save (ghost flags: changed since the last save; save timer armed since the last save)
+//@   atcall (*EventRecorder).recordAuthEvent sets ghostUnsaved bool (sr2 *EventRecorder, username2 string, authType2 uint, vipAuthType2 uint8) :: true
+//@   atcall (*EventRecorder).recordSPLoginEvent sets ghostUnsaved bool (sr2 *EventRecorder, username2 string, url2 string) :: true
+//@   atcall (*EventRecorder).recordCertEvent sets ghostUnsaved bool (sr2 *EventRecorder, username2 string, lifetime2 time.Duration, ssh2 bool, x5092 bool) :: true
+//@   atcall (*EventRecorder).recordWebLoginEvent sets ghostUnsaved bool (sr2 *EventRecorder, username2 string) :: true
+//@   atcall (*EventRecorder).expireOldEvents sets ghostUnsaved bool (sr2 *EventRecorder, changed2 bool) :: ghostUnsaved || changed2
+//@   atcall (*time.Timer).Reset sets ghostSaveArmed bool (t2 *time.Timer, d2 time.Duration, active2 bool) :: ghostSaveArmed || d2 <= time.Minute
+//@   atcall saveEvents sets ghostUnsaved bool (filename2 string, eventsMap2 EventsMap, err2 error) :: false
+//@   atcall saveEvents sets ghostSaveArmed bool (filename2 string, eventsMap2 EventsMap, err2 error) :: false
+// (the loop is started once, by the constructor, on the history just loaded from the file: nothing unsaved yet)
+//@   requires !ghostUnsaved
+//@   loop 1 () invariant ghostUnsaved ==> ghostSaveArmed                      #C20.unsaved-changes-have-a-save-scheduled @C20
